@@ -343,7 +343,7 @@ def c17(tier):
     alpha = b'ab()[]{}*+?|\\x-^.09\x00\xff \x7f"'
     rb = [bytes(rnd.choice(alpha) for _ in range(rnd.randint(0, 14))) for _ in range(20000 if q else 600000)]
     merge(ck, common.pmap(rxc.judge_random_bytes, [(c, 'clang1') for c in chunks(rb, 5000)]))
-    merge(ck, common.pmap(ctor_reject_worker, ctor_reject_cases(rnd, 24 if q else 160)))
+    merge(ck, common.pmap(ctor_reject_worker, ctor_reject_cases(rnd, 30 if q else 160)))
     ck.cov['rule'] = ('(a) strings broken in exactly the ways the property names (unbalanced group, unterminated set, dangling/empty repetition, empty alternative, leading quantifier, raw non-printable byte) '
                       'are fed to the real pattern parser, dfa_builder and dfa_size_analyzer through a bounds-monitoring buffer: all must be refused and nothing outside the pattern may be read; '
                       '(b) arbitrary strings over the meta-characters: memory safety of the scan only (no verdict on acceptance); (c) generated programs with regex_term<bad>, regex::expr<bad>, rules naming '
@@ -381,6 +381,8 @@ def ctor_reject_cases(rnd, n):
         ('undeclared-nterm-lhs', "constexpr nterm<int> S(\"S\"); constexpr nterm<int> T(\"T\");\n#define VF_P parser p(S, terms('a'), nterms(S), rules(S('a') >= [](auto){ return 1; }, T('a') >= [](auto){ return 1; }))", "constexpr nterm<int> S(\"S\"); constexpr nterm<int> T(\"T\");\n#define VF_P parser p(S, terms('a'), nterms(S, T), rules(S('a') >= [](auto){ return 1; }, T('a') >= [](auto){ return 1; }))"),
         ('undeclared-root', "constexpr nterm<int> S(\"S\"); constexpr nterm<int> T(\"T\");\n#define VF_P parser p(T, terms('a'), nterms(S), rules(S('a') >= [](auto){ return 1; }))", "constexpr nterm<int> S(\"S\"); constexpr nterm<int> T(\"T\");\n#define VF_P parser p(T, terms('a'), nterms(S, T), rules(S('a') >= [](auto){ return 1; }, T(S) >= [](int x){ return x; }))"),
         ('undeclared-regex-term', "constexpr char pa[] = \"[0-9]+\"; constexpr char pb[] = \"[a-z]+\"; constexpr regex_term<pa> ta(\"ta\"); constexpr regex_term<pb> tb(\"tb\"); constexpr nterm<int> S(\"S\");\n#define VF_P parser p(S, terms(ta), nterms(S), rules(S(ta, tb) >= [](auto, auto){ return 1; }))", "constexpr char pa[] = \"[0-9]+\"; constexpr char pb[] = \"[a-z]+\"; constexpr regex_term<pa> ta(\"ta\"); constexpr regex_term<pb> tb(\"tb\"); constexpr nterm<int> S(\"S\");\n#define VF_P parser p(S, terms(ta, tb), nterms(S), rules(S(ta, tb) >= [](auto, auto){ return 1; }))"),
+        ('undeclared-regex-term-same-name', "constexpr char pa[] = \"[0-9]+\"; constexpr char pb[] = \"[a-z]+\"; constexpr regex_term<pa> ta(\"value\"); constexpr regex_term<pb> tb(\"value\"); constexpr nterm<int> S(\"S\");\n#define VF_P parser p(S, terms(ta), nterms(S), rules(S(tb) >= [](auto){ return 1; }))", "constexpr char pa[] = \"[0-9]+\"; constexpr char pb[] = \"[a-z]+\"; constexpr regex_term<pa> ta(\"value\"); constexpr regex_term<pb> tb(\"value\"); constexpr nterm<int> S(\"S\");\n#define VF_P parser p(S, terms(ta, tb), nterms(S), rules(S(tb) >= [](auto){ return 1; }))"),
+        ('undeclared-regex-term-name-of-char', "constexpr char pb[] = \"[a-z]+\"; constexpr regex_term<pb> tb(\"a\"); constexpr nterm<int> S(\"S\");\n#define VF_P parser p(S, terms('a'), nterms(S), rules(S('a', tb) >= [](auto, auto){ return 1; }))", "constexpr char pb[] = \"[b-z]+\"; constexpr regex_term<pb> tb(\"a\"); constexpr nterm<int> S(\"S\");\n#define VF_P parser p(S, terms('a', tb), nterms(S), rules(S('a', tb) >= [](auto, auto){ return 1; }))"),
         ('empty-nterm-name', "#define VF_P nterm<int> S(\"\")", "#define VF_P nterm<int> S(\"S\")"),
     ]
     k = 0
